@@ -215,6 +215,75 @@ def validate_crash_traces(chk, work, results, label_of):
     print(f"  TraceCrash: {len(index)} recorded effects of {ntr} crash cases applied to the Crash.tla disk", flush=True)
 
 
+def crash_bad_clauses(work, traces, tag="st"):
+    """[abstract trace] -> (consumed?, {trace index: set of failed clauses}) through TraceCrash.tla."""
+    path = os.path.join(work, f"crash_{tag}.ndjson")
+    index = []
+    with open(path, "w") as fh:
+        for ti, tr in enumerate(traces):
+            for ev in tr:
+                fh.write(json.dumps(crashtrace.normalise(ev)) + "\n")
+                index.append(ti)
+    cfg = os.path.join(work, f"TraceCrash_{tag}.cfg")
+    with open(cfg, "w") as fh:
+        fh.write("SPECIFICATION TSpec\nCONSTANTS\n" + "".join(f"  {k} = {v}\n" for k, v in CRASH_CONSTS.items()) + "INVARIANT Report\nCHECK_DEADLOCK FALSE\n")
+    sub = os.path.join(work, f"tc_{tag}")
+    os.makedirs(sub, exist_ok=True)
+    res = tlc.run_tlc("TraceCrash", cfg, workers=1, cwd=sub, env={"TRACE_FILE": path}, coverage=False, timeout=900, keep_output=True, allow_violation=True)
+    out = res.get("output", "")
+    done = _DONE.search(out)
+    ok = bool(res["ok"] and done and int(done.group(1)) == len(index))
+    bad = {}
+    for m in _BAD.finditer(out):
+        bad.setdefault(index[int(m.group(1)) - 1], set()).add(m.group(2))
+    return ok, bad
+
+
+def crash_selftest(chk, work, results):
+    """The binding of TraceCrash.tla demonstrated: an accepted effect log is corrupted in one place at a time and must be rejected."""
+    import copy
+    base = next((r["abstract"] for r in results if r.get("abstract") and not r["problems"]
+                 and sum(1 for e in r["abstract"] if e["a"] == "Restart") >= 1 and sum(1 for e in r["abstract"] if e["a"] == "Row") >= 2), None)
+    if base is None:
+        chk.machinery("crash self-test: no recorded crash case with a restart and two data rows")
+        return
+    variants = [("unchanged", base, None)]
+
+    def variant(name, fn, expect):
+        t = copy.deepcopy(base)
+        fn(t)
+        variants.append((name, t, expect))
+    rows = [i for i, e in enumerate(base) if e["a"] == "Row"]
+    rst = next(i for i, e in enumerate(base) if e["a"] == "Restart")
+    variant("the data-row effect of one step missing from the log", lambda t: t.pop(rows[0]), {"T_OrderTmp", "T_Rows", "T_RowsOnce"})
+    variant("the restarted program reports one row more than a restart leaves", lambda t: t[rst]["rows"].append(t[rst]["active"][0]),
+            {"T_RowsAfterRestart", "T_RowsNotLive"})
+    tmp = next(i for i, e in enumerate(base) if e["a"] == "Tmp" and i + 1 < len(base) and base[i + 1]["a"] == "Replace")
+
+    def swap_tmp(t):
+        t[tmp], t[tmp + 1] = t[tmp + 1], t[tmp]
+    variant("restart.toml replaced before its temporary file is written", swap_tmp, {"T_OrderReplace", "T_OrderTmp"})
+    chkpt = next(i for i, e in enumerate(base) if e["a"] == "Check" and e["rows"])
+    variant("a completed step reports a path number as both active and written", lambda t: t[chkpt]["rows"].append(t[chkpt]["active"][0]),
+            {"T_Rows", "T_RowsOnce"})
+    ok, bad = crash_bad_clauses(work, [v[1] for v in variants])
+    if not ok:
+        chk.machinery("crash self-test: TraceCrash did not consume its batch")
+        return
+    report = []
+    for k, (name, _t, expect) in enumerate(variants):
+        got = sorted(bad.get(k, ()))
+        report.append({"corruption": name, "rejected_by": got})
+        if k == 0 and got:
+            chk.machinery(f"crash self-test: the uncorrupted effect log is rejected by {got}")
+        elif k > 0 and not got:
+            chk.machinery(f"crash self-test: TraceCrash accepted a corrupted effect log ({name})")
+        elif k > 0 and expect and not (set(got) & expect):
+            chk.machinery(f"crash self-test: '{name}' was rejected, but by none of the clauses that concern it ({got})")
+    chk.cov["binding_selftest"] = report
+    print("  binding self-test (TraceCrash): " + "; ".join(f"{r['corruption']} -> {', '.join(r['rejected_by'][:3]) or 'accepted'}" for r in report[1:]), flush=True)
+
+
 def main(tier, replay=None):
     if replay:
         return replay_case(replay)
@@ -280,6 +349,7 @@ def main(tier, replay=None):
             lab += (f"+effect:{lc['effect'][0]}:{lc['effect'][1]};mode:{lc['mode']}" if lc else "+effect:?") + ";double"
         return lab
     validate_crash_traces(chk, S._CTX["work"], results, label_of)
+    crash_selftest(chk, S._CTX["work"], results)
     for r in results:
         chk.evaluated(1)
         scn = r["scenario"]
